@@ -14,3 +14,16 @@ package peerauth
 //@   defines res1 ==> peerAuthInfoInstalled()
 //@ func IsTrustedPeer
 //@   ensures [trusted_only_with_installed_auth_info] result ==> peerAuthInfoInstalled()
+
+// The key a trusted peer is known by is the key of the LEAF certificate - the first one of the
+// chain, the only one whose private key the TLS handshake proves the peer to hold (the server
+// asks for a client certificate without verifying a chain, so any further certificate is just
+// bytes the client chose to send).
+//@ callrule c33_peer_key_is_the_leaf_certificates in NewAuthInfo
+//@   callee peerauth.CertificatePublicKey
+//@   pureeffect
+//@   requires [key_taken_from_the_first_certificate_of_the_chain] len(info.State.PeerCertificates) > 0 && a0 == info.State.PeerCertificates[0]
+//@ callrule c33_raw_peer_key_is_the_leaf_certificates in CertificatePublicKeyFromRaw
+//@   callee x509.ParseCertificate
+//@   pureeffect
+//@   requires [key_taken_from_the_first_certificate_of_the_chain] len(rawCerts) > 0 && a0 == rawCerts[0]
